@@ -198,6 +198,18 @@ CLAIMED = {
         design_ref='DESIGN.md 4 C18',
         note=TRUST + 'NOT decided: bit-exact HDF5 I/O (h5py C library without MPI-IO here), constants printer/parser round trip, non-integer time steps. '
                      'Driver collaborators are stubs; dt=2.'),
+    'C19': dict(
+        category='translation_validation',
+        technique='side-by-side symbolic execution of each numba/pythran source copy and the reference kernel on the same symbolic inputs; per-path z3 equality of all outputs',
+        text='PARTIAL: only the last clause of the property ("the alternative numba/pythran source copies define the same functions with '
+             'the same results") is decided. Every source copy is loaded from the working tree (numba decorators replaced by the '
+             'identity) and each kernel family (general and uniform-cubic spline evaluation, initialisation functions, density '
+             'kernels, v-parallel evaluation step, flux_advection) is executed symbolically next to the reference; z3 decides equality '
+             'of all outputs and in-place results on every path; functions a copy does not define are reported. The main clause -- the '
+             'pyccel-compiled shared objects equal the interpreted source and the documented build succeeds -- is NOT decided.',
+        design_ref='DESIGN.md 5 (C19) and 8',
+        note=TRUST + 'No Fortran/LLVM-IR-to-SMT engine is available, so compiled artefacts are outside this claim; numba/pythran compilation '
+                     'itself is not exercised (copies run as Python); poloidal steps and get_lagrange_vals of the copies are not exercised.'),
     'C20': dict(
         category='proof',
         technique='concolic symbolic execution of the real Python function on z3 Int proxies; per-path SMT queries (bounded)',
@@ -215,8 +227,6 @@ NOT_APPLICABLE = {
     'C15': 'substance is scipy.fftpack fft/ifft and spsolve (compiled FFI code, transcendental twiddle factors): no exact '
            'SMT encoding; a contract stub would make the round-trip claims true by assumption. Index arithmetic parts are '
            'covered under C14/C03.',
-    'C19': 'objects are pyccel-generated Fortran/C shared objects; no Fortran/LLVM-IR to SMT engine (CBMC/KLEE class) is '
-           'installed and "equal up to reassociation" is not a solver-statable equivalence.',
 }
 
 ALL = ['C%02d' % i for i in range(1, 21)]
